@@ -153,7 +153,7 @@ class C10(BaseCheck):
                 ctor['cols'][c].append(['c%d' % j, gen_value(r, p_v3 / 2)])
         kinds = ['meta_set', 'meta_append', 'meta_extend', 'meta_add_item', 'meta_update', 'meta_setdefault',
                  'col_meta_set', 'col_meta_append', 'col_meta_extend', 'col_assign',
-                 'append', 'insert', 'extend', 'iadd', 'setitem', 'row_poke', 'col_poke', 'derive']
+                 'append', 'insert', 'extend', 'iadd', 'setitem', 'row_poke', 'col_poke', 'derive', 'extend_grid']
         enabled = [x for x in kinds if k.random() < 0.7] or ['append']
         n = k.choice([2, 3, 4, 6, 8, 12]) if tier == 'quick' else k.choice([3, 6, 12, 20, 30])
         ops = []
@@ -191,6 +191,11 @@ class C10(BaseCheck):
             elif op == 'derive':
                 o['how'] = r.choice(['slice', 'slice-rev', 'filter-limit', 'columns-of', 'filter-expr'])
                 o['ver'] = r.choice(VERSIONS[1:])
+            elif op == 'extend_grid':
+                # rows arrive as a Grid OBJECT built under another version (not as a list of dicts)
+                o['src_ver'] = r.choice(['3.0', '3.0', '4.0', None, '2.0'])
+                o['rows'] = [{c: gen_value(r, p_v3 / 2) for c in COLS} for _ in range(r.choice([1, 2, 3]))]
+                o['how'] = r.choice(['extend', 'iadd', 'slice-of-src'])
             ops.append(o)
         return {'class': 'history', 'gver': gver, 'ctor': ctor, 'ops': ops,
                 'reparse_every': k.choice([0, 3, 5])}
@@ -347,6 +352,19 @@ class C10(BaseCheck):
                         skipped = True
                     else:
                         g[o['i'] % nrows] = {c: mkv(hs, s) for c, s in o['row'].items()}
+                elif op == 'extend_grid':
+                    src = hs.Grid(version=o.get('src_ver'), columns=[(c, []) for c in COLS])
+                    try:
+                        for rw in o['rows']:
+                            src.append({c: mkv(hs, s) for c, s in rw.items()})
+                    except ValueError:
+                        skipped = True      # the source grid itself (rightly) refused a row: nothing to hand over
+                    if not skipped:
+                        arg = src[:] if o.get('how') == 'slice-of-src' else src
+                        if o.get('how') == 'iadd':
+                            g += arg
+                        else:
+                            g.extend(arg)
                 elif op == 'extend':
                     g.extend([{c: mkv(hs, s) for c, s in rw.items()} for rw in o['rows']])
                 elif op == 'iadd':
@@ -425,7 +443,7 @@ class C10(BaseCheck):
                 met_decision += 1
                 after = self._snapshot(g)
                 if after != before:
-                    multi = op in ('extend', 'iadd', 'meta_extend', 'meta_update', 'col_meta_extend')
+                    multi = op in ('extend', 'iadd', 'extend_grid', 'meta_extend', 'meta_update', 'col_meta_extend')
                     if not multi:
                         viol = fail('refused-changed', step=step, op=o, version=gver,
                                     why='a refused single store changed the grid')
